@@ -12,5 +12,5 @@ t=t.replace("wt2-c01",tag).replace('"property": "C01"','"property": "%s"'%pid)
 rows=[l for l in open('/verif/DESIGN.md') if re.match(r"\| (r[0-9]-)?c%s-[AB] \|"%pid[1:].lower(), l)]
 if rows:
     t+="\n\nAlready used in an earlier round, so choose DIFFERENT mechanisms: "+"; ".join(r.split("|")[2].strip() for r in rows)+"."
-open('/tmp/prompt4-%s.txt'%pid,'w').write(t)
+open('/tmp/prompt5-%s.txt'%pid,'w').write(t)
 print(t[-600:])
